@@ -373,52 +373,79 @@ Section BisectP.
   Lemma half_facts x : x = 2 * (x / 2) + x mod 2 /\ x mod 2 < 2.
   Proof. split; [apply N.div_mod; discriminate|apply N.mod_lt; discriminate]. Qed.
 
-  Lemma bisect_S f m gpb st lo hi iters :
-    bisect probe (S f) m gpb st lo hi iters =
-    match u64_add m lo gpb with
+  Lemma bisect_S f fx m gpb st lo hi iters :
+    bisect probe (S f) fx m gpb st lo hi iters =
+    match bisect_guard fx m gpb lo hi with
     | Panic => Some (st, Panic)
     | Err => Some (st, Err)
-    | Ok x =>
-        if x <? hi then
-          match u64_add m lo hi with
-          | Panic => Some (st, Panic)
-          | Err => Some (st, Err)
-          | Ok sum =>
-              let mid := sum / 2 in
-              let '(st', r) := probe st mid in
-              match r with
-              | Panic => Some (st', Panic)
-              | Err => Some (st', Err)
-              | Ok (Some true) => bisect probe f m gpb st' lo mid (iters + 1)
-              | Ok _ =>
-                  match u64_add m mid 1 with
-                  | Ok l' => bisect probe f m gpb st' l' hi (iters + 1)
-                  | Err => Some (st', Err)
-                  | Panic => Some (st', Panic)
-                  end
-              end
-          end
-        else Some (st, Ok (hi, iters))
+    | Ok false => Some (st, Ok (hi, iters))
+    | Ok true =>
+        match bisect_mid fx m lo hi with
+        | Panic => Some (st, Panic)
+        | Err => Some (st, Err)
+        | Ok mid =>
+            let '(st', r) := probe st mid in
+            match r with
+            | Panic => Some (st', Panic)
+            | Err => Some (st', Err)
+            | Ok (Some true) => bisect probe f fx m gpb st' lo mid (iters + 1)
+            | Ok _ =>
+                match u64_add m mid 1 with
+                | Ok l' => bisect probe f fx m gpb st' l' hi (iters + 1)
+                | Err => Some (st', Err)
+                | Panic => Some (st', Panic)
+                end
+            end
+        end
     end.
   Proof. reflexivity. Qed.
 
+  (* no overflow: the repaired form needs nothing but u64 operands; the form as found needs
+     room for lower + GAS_PER_BYTE and lower + upper *)
+  Definition bisect_room (fx : fixes) (gpb B : N) : Prop :=
+    B <= U64MAX /\ (fx_bisect_sub fx = true \/ (B + gpb <= U64MAX /\ B + B <= U64MAX)).
+
+  Lemma bisect_guard_val fx m gpb B lo hi : bisect_room fx gpb B -> lo <= B -> hi <= B ->
+    bisect_guard fx m gpb lo hi = Ok (lo + gpb <? hi).
+  Proof.
+    intros [HB Hr] Hlo Hhi. unfold bisect_guard. destruct (fx_bisect_sub fx) eqn:F.
+    - f_equal. destruct (lo + gpb <? hi) eqn:E; nb; [apply N.ltb_lt|apply N.ltb_ge]; lia.
+    - destruct Hr as [Hr|[H1 H2]]; [discriminate|]. rewrite (u64_add_fits m lo gpb) by lia. reflexivity.
+  Qed.
+
+  Lemma bisect_mid_val fx m gpb B lo hi : bisect_room fx gpb B -> lo < hi -> hi <= B ->
+    bisect_mid fx m lo hi = Ok ((lo + hi) / 2).
+  Proof.
+    intros [HB Hr] Hlt Hhi. unfold bisect_mid.
+    destruct (half_facts (lo + hi)) as [Hs Hsm]. destruct (half_facts (hi - lo)) as [Hd Hdm].
+    destruct (fx_bisect_sub fx) eqn:F.
+    - rewrite (u64_sub_fits m hi lo) by lia. cbn [rbind].
+      assert (E : lo + (hi - lo) / 2 = (lo + hi) / 2).
+      { (* lo + hi = 2 lo + d *)
+        assert (P : (lo + hi) mod 2 = (hi - lo) mod 2).
+        { replace (lo + hi) with ((hi - lo) + lo * 2) by lia. apply N.mod_add. discriminate. }
+        lia. }
+      rewrite (u64_add_fits m lo ((hi - lo) / 2)) by lia. rewrite E. reflexivity.
+    - destruct Hr as [Hr|[H1 H2]]; [discriminate|]. rewrite (u64_add_fits m lo hi) by lia. reflexivity.
+  Qed.
+
   (* measure: upper - lower halves in every round *)
-  Lemma bisect_fuel m gpb B : B + gpb <= U64MAX -> B + B <= U64MAX ->
+  Lemma bisect_fuel fx m gpb B : bisect_room fx gpb B ->
     forall fuel st lo hi iters, lo <= B -> hi <= B -> hi - lo < 2 ^ N.of_nat fuel ->
-    exists st' r, bisect probe (S fuel) m gpb st lo hi iters = Some (st', r)
+    exists st' r, bisect probe (S fuel) fx m gpb st lo hi iters = Some (st', r)
       /\ (forall g it, r = Ok (g, it) -> it <= iters + N.of_nat fuel /\ g <= B)
       /\ (probe_no_panic -> Inv st -> r <> Panic /\ Inv st').
   Proof.
-    intros HB1 HB2. induction fuel as [|f IH]; intros st lo hi iters Hlo Hhi Hd.
+    intros HR. pose proof HR as [HB _]. induction fuel as [|f IH]; intros st lo hi iters Hlo Hhi Hd.
     - change (2 ^ N.of_nat 0) with 1 in Hd. rewrite bisect_S.
-      rewrite (u64_add_fits m lo gpb) by lia.
+      rewrite (bisect_guard_val fx m gpb B lo hi HR Hlo Hhi).
       destruct (lo + gpb <? hi) eqn:E; [nb; lia|].
       exists st, (Ok (hi, iters)). split; [reflexivity|]. split; [|intros _ Hi; split; [discriminate|exact Hi]].
       intros g it H. inversion H; subst. split; [cbn; lia|exact Hhi].
     - rewrite Nat2N.inj_succ, N.pow_succ_r' in Hd.
-      rewrite bisect_S. rewrite (u64_add_fits m lo gpb) by lia.
+      rewrite bisect_S. rewrite (bisect_guard_val fx m gpb B lo hi HR Hlo Hhi).
       destruct (lo + gpb <? hi) eqn:E.
-      + nb. rewrite (u64_add_fits m lo hi) by lia. cbn zeta.
+      + nb. rewrite (bisect_mid_val fx m gpb B lo hi HR) by lia.
         destruct (half_facts (lo + hi)) as [Hdm Hmod]. set (mid := (lo + hi) / 2) in *.
         destruct (probe st mid) as [st' r] eqn:Ep.
         assert (Hpr : probe_no_panic -> Inv st -> r <> Panic /\ Inv st').
@@ -445,22 +472,22 @@ Section BisectP.
   Proof. Transparent TWO64. vm_compute. reflexivity. Qed.
 
   (* the loop of eth_estimateGas as the handler starts it: lower = 21000, upper = the
-     configured call gas limit.  65 units of fuel = at most 64 rounds and the final test. *)
-  Theorem estimate_gas_terminates m gpb limit st :
-    limit <= 2 ^ 62 -> gpb <= 2 ^ 62 ->
-    exists st' r, bisect probe 65 m gpb st 21000 limit 0 = Some (st', r)
+     configured call gas limit.  65 units of fuel = at most 64 rounds and the final test.
+     The repaired form: every u64 limit; the form as found: limits up to 2^62. *)
+  Theorem estimate_gas_terminates fx m gpb limit st :
+    limit <= U64MAX -> (fx_bisect_sub fx = true \/ (limit <= 2 ^ 62 /\ gpb <= 2 ^ 62)) ->
+    exists st' r, bisect probe 65 fx m gpb st 21000 limit 0 = Some (st', r)
       /\ (forall g it, r = Ok (g, it) -> it <= 64 /\ g <= N.max 21000 limit)
       /\ (probe_no_panic -> Inv st -> r <> Panic /\ Inv st').
   Proof.
     intros Hl Hg.
     assert (P62 : 2 ^ 62 = 4611686018427387904) by (vm_compute; reflexivity). rewrite P62 in *.
-    destruct (bisect_fuel m gpb (N.max 21000 limit)) with (fuel := 64%nat) (st := st) (lo := 21000) (hi := limit) (iters := 0)
+    destruct (bisect_fuel fx m gpb (N.max 21000 limit)) with (fuel := 64%nat) (st := st) (lo := 21000) (hi := limit) (iters := 0)
       as (s2 & r2 & E2 & B2 & P2).
-    - rewrite U64MAX_val. lia.
-    - rewrite U64MAX_val. lia.
+    - split; [rewrite U64MAX_val in *; lia|]. destruct Hg as [Hg|[H1 H2]]; [left; exact Hg|right; rewrite U64MAX_val; lia].
     - lia.
     - lia.
-    - rewrite pow_2_64, TWO64_val. lia.
+    - rewrite pow_2_64, TWO64_val. rewrite U64MAX_val in Hl. lia.
     - exists s2, r2. split; [exact E2|]. split; [|exact P2].
       intros g it H. destruct (B2 g it H) as [A B]. change (N.of_nat 64) with 64 in A. split; lia.
   Qed.
@@ -727,8 +754,7 @@ Section HandlersP.
     w_finalise : forall s n, finalise s n <> Panic;
     w_commit : forall s i, commit_exec s i <> Panic;
     w_book : forall s i, bookkeeping s i <> Panic;
-    w_limit : LIMIT <= 2 ^ 62;
-    w_gpb : GPB <= 2 ^ 62
+    w_limit : LIMIT <= U64MAX
   }.
 
   Notation handle := (handle ej exec status with_gas latest_of next_of genesis_missing open_block
@@ -800,10 +826,11 @@ Section HandlersP.
 
   Theorem engine_alive_after_any_request fx m e r :
     fx_logs fx = true -> fx_txcount fx = true -> fx_mine_zero fx = true -> fx_hash_wrap fx = true ->
+    fx_bisect_sub fx = true ->
     world_ok -> live e -> request_ok m e r ->
     snd (handle fx m e r) <> Panic /\ live (fst (handle fx m e r)).
   Proof.
-    intros F1 F2 F3 F4 W He [Hwf Hpre]. destruct (alive_inv e He) as [s Es].
+    intros F1 F2 F3 F4 F5 W He [Hwf Hpre]. destruct (alive_inv e He) as [s Es].
     assert (Hl : h_latest latest_of e <> Panic) by (subst e; apply (w_latest W)).
     assert (Hn : h_next next_of e <> Panic) by (subst e; apply (w_next W)).
     destruct r; cbn [Requests.handle fst snd request_wf] in *.
@@ -862,8 +889,8 @@ Section HandlersP.
       destruct o as [out| |]; [|split; [discriminate|exact He]|contradiction].
       destruct (negb (status out)); [split; [discriminate|exact He]|].
       destruct (estimate_gas_terminates (fun st g => h_probe st i g)
-                  (fun st => st = {| es_slot := Present s; es_poisoned := false |}) m GPB LIMIT
-                  {| es_slot := Present s; es_poisoned := false |} (w_limit W) (w_gpb W)) as (e2 & r2 & E2 & _ & P2).
+                  (fun st => st = {| es_slot := Present s; es_poisoned := false |}) fx m GPB LIMIT
+                  {| es_slot := Present s; es_poisoned := false |} (w_limit W) (or_introl F5)) as (e2 & r2 & E2 & _ & P2).
       rewrite E2.
       assert (Hpn : probe_no_panic (fun st g => h_probe st i g) (fun st => st = {| es_slot := Present s; es_poisoned := false |})).
       { intros st g ->. destruct (h_probe_alive s i g (w_exec W)) as [X Y]. split; [exact Y|exact X]. }
@@ -881,10 +908,11 @@ Section HandlersP.
 
   (* read requests leave the engine exactly as it was *)
   Theorem read_requests_leave_engine_unchanged fx m e r :
+    fx_bisect_sub fx = true ->
     world_ok -> live e -> request_wf r = true ->
     match r with RMine _ | RTx _ => True | _ => fst (handle fx m e r) = e end.
   Proof.
-    intros W He Hwf. destruct (alive_inv e He) as [s Es].
+    intros F5 W He Hwf. destruct (alive_inv e He) as [s Es].
     destruct r; cbn [Requests.handle fst snd request_wf] in *; try reflexivity; try exact I.
     - destruct (h_opt_block latest_of next_of e block); cbn [fst]; try reflexivity.
       subst e. destruct (h_read_alive s (with_gas i LIMIT) (w_exec W)) as [A _].
@@ -901,8 +929,8 @@ Section HandlersP.
       destruct o as [out| |]; [|reflexivity|contradiction].
       destruct (negb (status out)); [reflexivity|].
       destruct (estimate_gas_terminates (fun st g => h_probe st i g)
-                  (fun st => st = {| es_slot := Present s; es_poisoned := false |}) m GPB LIMIT
-                  {| es_slot := Present s; es_poisoned := false |} (w_limit W) (w_gpb W)) as (e2 & r2 & E2 & _ & P2).
+                  (fun st => st = {| es_slot := Present s; es_poisoned := false |}) fx m GPB LIMIT
+                  {| es_slot := Present s; es_poisoned := false |} (w_limit W) (or_introl F5)) as (e2 & r2 & E2 & _ & P2).
       rewrite E2.
       assert (Hpn : probe_no_panic (fun st g => h_probe st i g) (fun st => st = {| es_slot := Present s; es_poisoned := false |})).
       { intros st g ->. destruct (h_probe_alive s i g (w_exec W)) as [X Y]. split; [exact Y|exact X]. }
